@@ -31,7 +31,13 @@ Definition halloc (h : heap) (v : list Z) : loc * heap := (length h, h ++ [v]).
 
 Inductive kind := KDict | KWl.
 
-Record obj := mkObj { o_kind : kind; o_hdr : loc; o_rows : list (Z * loc) }.
+(* o_strkeys: the rows of a caller's dictionary are stored under numeric STRING keys ('1', '2');
+   o_stale: what wl._meta holds under such keys - references (id |-> location) to row lists of
+   the dictionary the object (or an ancestor) was built from.  QLCParser.__init__ (176-180)
+   stores every non-int key of its input in _meta, uncopied; it never writes through them,
+   but a construction FROM this object reads them (see eff_rows). *)
+Record obj := mkObj { o_kind : kind; o_hdr : loc; o_rows : list (Z * loc);
+                      o_strkeys : bool; o_stale : list (Z * loc) }.
 
 Record state := mkState { st_heap : heap; st_objs : list obj }.
 
@@ -104,10 +110,23 @@ Fixpoint alloc_rows (h : heap) (rows : list (Z * list Z)) : heap * list (Z * loc
    (the header dictionary is then shorter than the rows), when some row has not
    as many cells as the header, or when a required column (row/col of the
    Wordlist class) is missing *)
+(* the rows a construction from object o reads: input_data = copies of o._data, then
+   input_data.update(o._meta): a numeric-string key '9' of _meta comes later in the
+   comprehension  {int(k): ... for k in input_data}  and replaces the row with id 9 *)
+Definition eff_rows (o : obj) : list (Z * loc) :=
+  map (fun r => (fst r, match find_row (o_stale o) (fst r) with Some l' => l' | None => snd r end)) (o_rows o).
+
+(* the _meta references the new object gets *)
+Definition stale_of (o : obj) : list (Z * loc) :=
+  match o_kind o with
+  | KDict => if o_strkeys o then o_rows o else []
+  | KWl => o_stale o
+  end.
+
 Definition cons_ok (h : heap) (o : obj) (req : list Z) : bool :=
   let hdr := hget h (o_hdr o) in
   nodupz hdr
-  && forallb (fun r => Nat.eqb (length (hget h (snd r))) (length hdr)) (o_rows o)
+  && forallb (fun r => Nat.eqb (length (hget h (snd r))) (length hdr)) (eff_rows o)
   && forallb (fun n => memz n hdr) req.
 
 Definition cons_with (cp : heap -> list (Z * loc) -> heap * list (Z * loc))
@@ -118,17 +137,17 @@ Definition cons_with (cp : heap -> list (Z * loc) -> heap * list (Z * loc))
       let h := st_heap s in
       if cons_ok h o req then
         let (lh, h1) := halloc h (hget h (o_hdr o)) in
-        let (h2, rows') := cp h1 (o_rows o) in
-        (mkState h2 (st_objs s ++ [mkObj KWl lh rows']), false)
+        let (h2, rows') := cp h1 (eff_rows o) in
+        (mkState h2 (st_objs s ++ [mkObj KWl lh rows' false (stale_of o)]), false)
       else (s, true)
   end.
 
 Definition cons_obj := cons_with copy_rows.
 
-Definition new_dict (s : state) (hdr : list Z) (rows : list (Z * list Z)) : state * bool :=
+Definition new_dict (s : state) (hdr : list Z) (rows : list (Z * list Z)) (strkeys : bool) : state * bool :=
   let (lh, h1) := halloc (st_heap s) hdr in
   let (h2, rows') := alloc_rows h1 rows in
-  (mkState h2 (st_objs s ++ [mkObj KDict lh rows']), false).
+  (mkState h2 (st_objs s ++ [mkObj KDict lh rows' strkeys []]), false).
 
 (* ------------------------------------------------------------------ *)
 (* _add_entries *)
@@ -286,7 +305,7 @@ Definition dict_hdr_append (s : state) (tgt : nat) (name : Z) : state * bool :=
 (* operations and histories *)
 
 Inductive op :=
-| ONewDict (hdr : list Z) (rows : list (Z * list Z))
+| ONewDict (hdr : list Z) (rows : list (Z * list Z)) (strkeys : bool)
 | OCons (src : nat) (req : list Z)
 | OAdd (tgt : nat) (entry : Z) (src : source) (f : list Z -> option Z) (override answer : bool)
 | OSet (tgt : nat) (id col v : Z)
@@ -296,7 +315,7 @@ Inductive op :=
 
 Definition exec (o : op) (s : state) : state * bool :=
   match o with
-  | ONewDict hdr rows => new_dict s hdr rows
+  | ONewDict hdr rows sk => new_dict s hdr rows sk
   | OCons src req => cons_obj s src req
   | OAdd tgt e src f ov an => add_entries s tgt e src f ov an
   | OSet tgt id col v => set_item s tgt id col v
@@ -308,7 +327,7 @@ Definition exec (o : op) (s : state) : state * bool :=
 (* the object an operation may write to; constructors write to fresh locations only *)
 Definition target (o : op) : option nat :=
   match o with
-  | ONewDict _ _ => None
+  | ONewDict _ _ _ => None
   | OCons _ _ => None
   | OAdd tgt _ _ _ _ _ => Some tgt
   | OSet tgt _ _ _ => Some tgt
@@ -345,5 +364,9 @@ Definition view (s : state) (k : nat) : option (list Z * list (Z * list Z)) :=
   option_map (view_obj (st_heap s)) (nth_error (st_objs s) k).
 
 Definition obj_locs (o : obj) : list loc := o_hdr o :: map snd (o_rows o).
+
+(* what a construction from o would copy *)
+Definition eff_view_obj (h : heap) (o : obj) : list Z * list (Z * list Z) :=
+  (hget h (o_hdr o), map (fun r => (fst r, hget h (snd r))) (eff_rows o)).
 
 Definition all_locs (s : state) : list loc := flat_map obj_locs (st_objs s).
